@@ -736,7 +736,12 @@ class Povm(QOperation):
                 spectral_decomp = dict()
                 eigenval_prev = None
                 for eigenval, eigenvec in zip(eigenvals, eigenvecs.T):
-                    if eigenval_prev == eigenval:
+                    # eigh returns eigenvalues in ascending order: values equal up to
+                    # rounding belong to one eigenspace
+                    if eigenval_prev is not None and np.isclose(
+                        eigenval_prev, eigenval, atol=Settings.get_atol(), rtol=0.0
+                    ):
+                        eigenval = eigenval_prev
                         P = np.dot(np.array([eigenvec]).T, np.array([eigenvec]).conj())
                         spectral_decomp[eigenval].append(P)
                     else:
